@@ -442,13 +442,13 @@ def main():
             print(json.dumps(w, indent=1)[:3000])
         return 0
     th = a.tier == 'thorough'
-    for r in parallel(worker, [(bindir, i, 600 if not th else 5000) for i in range(16)]):
+    for r in parallel(worker, [(bindir, i, 600 if not th else 15000) for i in range(16)]):
         rep.merge(r)
-    for r in parallel(amount_worker, [(bindir, i, 400 if not th else 8000) for i in range(16)]):
+    for r in parallel(amount_worker, [(bindir, i, 400 if not th else 30000) for i in range(16)]):
         rep.merge(r)
-    for r in parallel(binary_worker, [(bindir, i, 30 if not th else 150) for i in range(16)]):
+    for r in parallel(binary_worker, [(bindir, i, 30 if not th else 600) for i in range(16)]):
         rep.merge(r)
-    for r in parallel(tap_worker, [(bindir, i, 12 if not th else 150) for i in range(16)]):
+    for r in parallel(tap_worker, [(bindir, i, 12 if not th else 600) for i in range(16)]):
         rep.merge(r)
     return rep.finish(
         rule='transactions with 0..6 inputs/outputs, script lengths at 0/1/252/253/254/65535/65536, witness present/absent/mixed, negative and extreme versions/values, hex with embedded whitespace; for each: every truncation (all prefixes for small ones), '
